@@ -88,7 +88,9 @@ Definition fill_positive (bm kg : bool) (c : cache) (pk cc v : bytes) : cache :=
 Definition fill_positive_batch (bm kg : bool) (c : cache) (pk cc v : bytes) : cache :=
   if cache_batch_fill_guarded then set_pos_if_absent bm kg c pk cc v else set_pos bm kg c pk cc 0 v.
 
-Definition cache_step_gen (bm kg : bool) (s : cst) (o : sop) : cst * sout :=
+(* [xm]: TTLGet finding an expired entry caches the absence (true, the code since the repair of C07-EXPDEL) or
+   drops the entry (false, the code before) *)
+Definition cache_step_gen (bm kg xm : bool) (s : cst) (o : sop) : cst * sout :=
   let u := c_under s in let c := c_cache s in let now := c_now s in
   match o with
   | OPut pk cc v =>
@@ -137,7 +139,8 @@ Definition cache_step_gen (bm kg : bool) (s : cst) (o : sop) : cst * sout :=
       match c_answer c pk cc with
       | Some CNeg => (s, RGet None)
       | Some (CPos exp v) =>
-          if c_expired now exp then (mkC u (c_del c pk cc) now, RGet None) else (s, RGet (Some v))
+          if c_expired now exp then (mkC u (if xm then set_neg kg c pk cc else c_del c pk cc) now, RGet None)
+          else (s, RGet (Some v))
       | Some CBig | None =>
           let '(u', out) := ustep u o in
           match out with
@@ -152,15 +155,15 @@ Definition cache_step_gen (bm kg : bool) (s : cst) (o : sop) : cst * sout :=
   end.
 
 (* the code as it is: the flags read from the source *)
-Definition cache_step := cache_step_gen cache_big_values_marked cache_key_guard.
+Definition cache_step := cache_step_gen cache_big_values_marked cache_key_guard cache_expired_leaves_marker.
 
-Fixpoint run_cache_gen (bm kg : bool) (s : cst) (ops : list sop) : list sout :=
+Fixpoint run_cache_gen (bm kg xm : bool) (s : cst) (ops : list sop) : list sout :=
   match ops with
   | [] => []
-  | o :: r => let '(s', out) := cache_step_gen bm kg s o in out :: run_cache_gen bm kg s' r
+  | o :: r => let '(s', out) := cache_step_gen bm kg xm s o in out :: run_cache_gen bm kg xm s' r
   end.
 
-Definition run_cache := run_cache_gen cache_big_values_marked cache_key_guard.
+Definition run_cache := run_cache_gen cache_big_values_marked cache_key_guard cache_expired_leaves_marker.
 
 End Seq.
 
@@ -243,29 +246,29 @@ Definition mark_unknown (kg : bool) (c : cache) (k : bytes * bytes) : cache :=
 
 (* [em] = true: a write that failed marks its keys (the code since the repair of C07-WRITEERR); false: it
    leaves the cache as it was (the code before) *)
-Definition cache_fstep (bm kg em : bool) (s : cst (U:=U)) (fo : fault * sop) : cst (U:=U) * sout :=
+Definition cache_fstep (bm kg xm em : bool) (s : cst (U:=U)) (fo : fault * sop) : cst (U:=U) * sout :=
   if faulty (fst fo) (snd fo)
   then (mkC (failed_under (c_under s) (fst fo) (snd fo))
             (if em then fold_left (mark_unknown kg) (write_keys (snd fo)) (c_cache s) else c_cache s)
             (c_now s), RErr)
-  else cache_step_gen ustep bm kg s (snd fo).
+  else cache_step_gen ustep bm kg xm s (snd fo).
 
 (* Two handles obtained from one caching provider for one app.  [memo] = true: the provider hands out one
    caching storage per app, both handles are the same cache (the code since the repair of C07-HANDLES);
    false: every AppStorage call builds a new cache over the same storage (the code before). *)
 Record xst := mkX { x_under : U; x_c0 : cache; x_c1 : cache; x_now : Z }.
 
-Definition xstep (memo bm kg em : bool) (s : xst) (x : bool * fault * sop) : xst * sout :=
+Definition xstep (memo bm kg xm em : bool) (s : xst) (x : bool * fault * sop) : xst * sout :=
   let second := fst (fst x) && negb memo in
   let c := if second then x_c1 s else x_c0 s in
-  let '(s', out) := cache_fstep bm kg em (mkC (x_under s) c (x_now s)) (snd (fst x), snd x) in
+  let '(s', out) := cache_fstep bm kg xm em (mkC (x_under s) c (x_now s)) (snd (fst x), snd x) in
   (if second then mkX (c_under s') (x_c0 s) (c_cache s') (c_now s')
    else mkX (c_under s') (c_cache s') (x_c1 s) (c_now s'), out).
 
-Fixpoint xrun (memo bm kg em : bool) (s : xst) (xs : list (bool * fault * sop)) : list sout :=
+Fixpoint xrun (memo bm kg xm em : bool) (s : xst) (xs : list (bool * fault * sop)) : list sout :=
   match xs with
   | [] => []
-  | x :: r => let '(s', out) := xstep memo bm kg em s x in out :: xrun memo bm kg em s' r
+  | x :: r => let '(s', out) := xstep memo bm kg xm em s x in out :: xrun memo bm kg xm em s' r
   end.
 
 End SeqX.
@@ -285,9 +288,11 @@ Record xtrace := mkXTrace { xt_backend : backend; xt_ops : list (bool * fault * 
 Definition agrees_x (t : xtrace) : bool :=
   list_eqb sout_eqb
     (match xt_backend t with
-     | Mem => xrun spec_step cache_provider_one_per_app cache_big_values_marked cache_key_guard cache_write_error_marks
+     | Mem => xrun spec_step cache_provider_one_per_app cache_big_values_marked cache_key_guard cache_expired_leaves_marker
+                   cache_write_error_marks
                    (mkX ([], 0) [] [] 0) (xt_ops t)
-     | Bbolt => xrun bb_step cache_provider_one_per_app cache_big_values_marked cache_key_guard cache_write_error_marks
+     | Bbolt => xrun bb_step cache_provider_one_per_app cache_big_values_marked cache_key_guard cache_expired_leaves_marker
+                   cache_write_error_marks
                      (mkX bb_init [] [] 0) (xt_ops t)
      end) (xt_cached t)
   && list_eqb sout_eqb
@@ -315,38 +320,47 @@ Definition satisfies_x (t : xtrace) : bool :=
    number i in the storage (content 0 is what was there before the run; None = no row).
    Readers run Get / TTLGet.  Values are numbers; a number >= 256 stands for a value too big for a
    cache entry (the harness uses one-byte values for v < 256 and 70000 bytes of the byte v - 256
-   otherwise).  Cache content for the key: None = not cached, Some ENeg = cached as "known missing",
-   Some (EVal v) = value v cached, Some EBig = marked "row too big for the cache".  One step = one of
-   the sections delimited by the calls into the underlying storage and by the cache mutex. *)
-Inductive wop := WPut (v : N) | WIns (v : N) | WDel | WPutBig (v : N).   (* Put / InsertIfNotExists / CompareAndDelete / Put of a big value *)
+   otherwise).  Time is a counter of clock advances (process PC); a write with a TTL (WInsT / WCasT:
+   InsertIfNotExists / CompareAndSwap with ttlSeconds = 1, the clock advancing by whole seconds) leaves a
+   row that expires at the next advance: expireAt = now + 1, 0 = never.
+   Cache content for the key: None = not cached, Some ENeg = cached as "known missing",
+   Some (EVal v expireAt) = value v cached, Some EBig = marked "row too big for the cache".  One step = one
+   of the sections delimited by the calls into the underlying storage and by the cache mutex. *)
+Inductive wop := WPut (v : N) | WIns (v : N) | WDel | WPutBig (v : N) | WInsT (v : N) | WCasT (v : N).
 Inductive rop := OpGet | OpTTLGet.
 Inductive rpc := RIdle | RMissed (o : rop) | RGot (o : rop) (e : option N).
-Inductive sentry := ENeg | EVal (v : N) | EBig.
+Inductive sentry := ENeg | EVal (v : N) (exp : N) | EBig.
 
 Definition big_val (v : N) : bool := (256 <=? v)%N.
 Definition wcontent (w : wop) : option N :=
-  match w with WPut v | WIns v => Some v | WDel => None | WPutBig v => Some (256 + v)%N end.
+  match w with WPut v | WIns v | WInsT v | WCasT v => Some v | WDel => None | WPutBig v => Some (256 + v)%N end.
+Definition wttl (w : wop) : bool := match w with WInsT _ | WCasT _ => true | _ => false end.
+Definition wexp (now : N) (w : wop) : N := if wttl w then (now + 1)%N else 0%N.
 
-(* what a reader gets out of an entry: an answer, or (the mark) nothing *)
-Definition entry_answer (e : sentry) : option (option N) :=
-  match e with ENeg => Some None | EVal v => Some (Some v) | EBig => None end.
+(* a version of the row: its content and when it expires *)
+Definition version := (option N * N)%type.
+Definition s_expired (now exp : N) : bool := ((0 <? exp) && (exp <=? now))%N.
+(* what a TTL-aware storage read (mem: Get and TTLGet alike) returns *)
+Definition live (now : N) (e : version) : option N := if s_expired now (snd e) then None else fst e.
 
 Record sch := mkSch {
-  s_store : option N;
+  s_store : version;
+  s_now : N;
   s_cache : option sentry;
   s_wpc : option wop;               (* the write whose storage step is done and whose cache step is not *)
   s_wprog : list wop;               (* writes not yet started *)
   s_completed : N;                  (* writes that have returned *)
   s_started : N;                    (* writes whose storage step is done *)
-  s_hist : list (option N);         (* content after j storage steps, newest first (ghost) *)
+  s_hist : list version;            (* version after j storage steps, newest first (ghost) *)
   s_readers : list (rpc * list rop)
 }.
 
-Inductive pid := PW | PR (i : nat).
+Inductive pid := PW | PR (i : nat) | PC.
 
 Inductive sobs :=
 | SNone
 | SWDone
+| SClock
 | SGetStart (c : N)
 | SGetHit (c : N) (r : option N)
 | SGetDone (r : option N).
@@ -358,46 +372,52 @@ Fixpoint set_nth {T} (l : list T) (i : nat) (x : T) : list T :=
   | y :: r, S j => y :: set_nth r j x
   end.
 
-Definition set_readers (s : sch) (rs : list (rpc * list rop)) : sch :=
-  mkSch (s_store s) (s_cache s) (s_wpc s) (s_wprog s) (s_completed s) (s_started s) (s_hist s) rs.
+Definition set_cr (s : sch) (c : option sentry) (rs : list (rpc * list rop)) : sch :=
+  mkSch (s_store s) (s_now s) c (s_wpc s) (s_wprog s) (s_completed s) (s_started s) (s_hist s) rs.
+Definition set_readers (s : sch) (rs : list (rpc * list rop)) : sch := set_cr s (s_cache s) rs.
 
 Definition fill_if_absent (c : option sentry) (e : sentry) : option sentry :=
   match c with Some _ => c | None => Some e end.
 
 (* the store of a found value v.  [bm]: is a value too big for an entry replaced by the mark (true, the
    code since the repair of finding F26) or ignored by fastcache, the entry staying as it was (false) *)
-Definition set_val (bm : bool) (c : option sentry) (v : N) : option sentry :=
-  if big_val v then (if bm then Some EBig else c) else Some (EVal v).
+Definition set_val (bm : bool) (c : option sentry) (v exp : N) : option sentry :=
+  if big_val v then (if bm then Some EBig else c) else Some (EVal v exp).
 
-(* what the reader's last step does to the cache *)
+(* what the reader's last step does to the cache (a plain Get does not learn the expiry of the row) *)
 Definition reader_fill (bm : bool) (o : rop) (got : option N) (c : option sentry) : option sentry :=
   match o, got with
-  | OpGet, Some v => if cache_positive_fill_guarded then match c with Some _ => c | None => set_val bm c v end
-                     else set_val bm c v
+  | OpGet, Some v => if cache_positive_fill_guarded then match c with Some _ => c | None => set_val bm c v 0 end
+                     else set_val bm c v 0
   | OpGet, None => fill_if_absent c ENeg
   | OpTTLGet, Some _ => c                                   (* a found TTL row is not cached *)
   | OpTTLGet, None => if cache_ttlget_negative_fill_guarded then fill_if_absent c ENeg else Some ENeg
   end.
 
 (* [mk]: does a successful CompareAndDelete leave a "not found" entry in the cache (true, the code
-   since the repair of finding F8b) or drop the entry (false, the code before); [bm]: see set_val *)
-Definition sch_step_gen (mk bm : bool) (s : sch) (p : pid) : option (sch * sobs) :=
+   since the repair of finding F8b) or drop the entry (false, the code before); [bm]: see set_val;
+   [xm]: does a TTLGet that finds an expired entry leave a "not found" entry (true, the code since the repair
+   of C07-EXPDEL) or drop the entry (false, the code before) *)
+Definition sch_step_gen (mk bm xm : bool) (s : sch) (p : pid) : option (sch * sobs) :=
   match p with
+  | PC => Some (mkSch (s_store s) (s_now s + 1)%N (s_cache s) (s_wpc s) (s_wprog s) (s_completed s) (s_started s)
+                      (s_hist s) (s_readers s), SClock)
   | PW =>
       match s_wpc s with
       | Some w =>
-          (* cache update + return *)
+          (* cache update + return; the entry's expiry is computed now, after the storage call *)
           let c' := match wcontent w with
                     | None => if mk then Some ENeg else None
-                    | Some v => set_val bm (s_cache s) v
+                    | Some v => set_val bm (s_cache s) v (wexp (s_now s) w)
                     end in
-          Some (mkSch (s_store s) c' None (s_wprog s) (s_started s) (s_started s) (s_hist s) (s_readers s), SWDone)
+          Some (mkSch (s_store s) (s_now s) c' None (s_wprog s) (s_started s) (s_started s) (s_hist s) (s_readers s), SWDone)
       | None =>
           match s_wprog s with
           | [] => None
           | w :: rest =>
-              Some (mkSch (wcontent w) (s_cache s) (Some w) rest (s_completed s) (s_started s + 1)%N
-                          (wcontent w :: s_hist s) (s_readers s), SNone)
+              let ver := (wcontent w, wexp (s_now s) w) in
+              Some (mkSch ver (s_now s) (s_cache s) (Some w) rest (s_completed s) (s_started s + 1)%N
+                          (ver :: s_hist s) (s_readers s), SNone)
           end
       end
   | PR i =>
@@ -405,33 +425,43 @@ Definition sch_step_gen (mk bm : bool) (s : sch) (p : pid) : option (sch * sobs)
       | None => None
       | Some (RIdle, []) => None
       | Some (RIdle, o :: rest) =>
-          match match s_cache s with Some e => entry_answer e | None => None end with
-          | Some r => Some (set_readers s (set_nth (s_readers s) i (RIdle, rest)), SGetHit (s_completed s) r)
-          | None => Some (set_readers s (set_nth (s_readers s) i (RMissed o, rest)), SGetStart (s_completed s))
+          let hit r := Some (set_readers s (set_nth (s_readers s) i (RIdle, rest)), SGetHit (s_completed s) r) in
+          match s_cache s with
+          | Some ENeg => hit None
+          | Some (EVal v x) =>
+              match o with
+              | OpGet => hit (Some v)                       (* a plain Get does not look at the expiry *)
+              | OpTTLGet =>
+                  if s_expired (s_now s) x
+                  then Some (set_cr s (if xm then Some ENeg else None) (set_nth (s_readers s) i (RIdle, rest)),
+                             SGetHit (s_completed s) None)
+                  else hit (Some v)
+              end
+          | Some EBig | None =>
+              Some (set_readers s (set_nth (s_readers s) i (RMissed o, rest)), SGetStart (s_completed s))
           end
       | Some (RMissed o, rest) =>
-          Some (set_readers s (set_nth (s_readers s) i (RGot o (s_store s), rest)), SNone)
+          Some (set_readers s (set_nth (s_readers s) i (RGot o (live (s_now s) (s_store s)), rest)), SNone)
       | Some (RGot o e, rest) =>
-          Some (mkSch (s_store s) (reader_fill bm o e (s_cache s)) (s_wpc s) (s_wprog s) (s_completed s) (s_started s)
-                      (s_hist s) (set_nth (s_readers s) i (RIdle, rest)), SGetDone e)
+          Some (set_cr s (reader_fill bm o e (s_cache s)) (set_nth (s_readers s) i (RIdle, rest)), SGetDone e)
       end
   end.
 
-Definition sch_step := sch_step_gen cache_delete_leaves_marker cache_big_values_marked.
+Definition sch_step := sch_step_gen cache_delete_leaves_marker cache_big_values_marked cache_expired_leaves_marker.
 
 Definition sch_init (init : option N) (prog : list wop) (readers : list (list rop)) : sch :=
-  mkSch init None None prog 0 0 [init] (map (fun g => (RIdle, g)) readers).
+  mkSch (init, 0%N) 0 None None prog 0 0 [(init, 0%N)] (map (fun g => (RIdle, g)) readers).
 
-Fixpoint sch_run_gen (mk bm : bool) (s : sch) (ps : list pid) : option (list sobs) :=
+Fixpoint sch_run_gen (mk bm xm : bool) (s : sch) (ps : list pid) : option (list sobs) :=
   match ps with
   | [] => Some []
-  | p :: r => match sch_step_gen mk bm s p with
+  | p :: r => match sch_step_gen mk bm xm s p with
               | None => None
-              | Some (s', o) => option_map (cons o) (sch_run_gen mk bm s' r)
+              | Some (s', o) => option_map (cons o) (sch_run_gen mk bm xm s' r)
               end
   end.
 
-Definition sch_run := sch_run_gen cache_delete_leaves_marker cache_big_values_marked.
+Definition sch_run := sch_run_gen cache_delete_leaves_marker cache_big_values_marked cache_expired_leaves_marker.
 
 Record ctrace := mkCTrace { ct_init : option N; ct_prog : list wop; ct_readers : list (list rop);
                             ct_sched : list pid; ct_obs : list sobs }.
@@ -440,7 +470,7 @@ Definition on_eqb := option_eqb N.eqb.
 
 Definition sobs_eqb (a b : sobs) : bool :=
   match a, b with
-  | SNone, SNone | SWDone, SWDone => true
+  | SNone, SNone | SWDone, SWDone | SClock, SClock => true
   | SGetStart c, SGetStart c' => (c =? c')%N
   | SGetHit c v, SGetHit c' v' => (c =? c')%N && on_eqb v v'
   | SGetDone v, SGetDone v' => on_eqb v v'
@@ -454,45 +484,47 @@ Definition agrees_sched (t : ctrace) : bool :=
   end.
 
 (* ---- the property on the observed timeline alone ----
-   hist = contents so far (newest first; its length - 1 = number of storage steps of the writer).
-   A read that started when c writes had completed may return content j only for some j >= c
-   that exists when it returns. *)
-Definition content_at (hist : list (option N)) (j : N) : option (option N) :=
-  nth_error (rev hist) (N.to_nat j).
-
-Definition fresh_enough (hist : list (option N)) (c : N) (r : option N) : bool :=
-  existsb (fun j => (c <=? N.of_nat j)%N && match nth_error (rev hist) j with Some e => on_eqb e r | None => false end)
+   hist = versions so far (newest first; its length - 1 = number of storage steps of the writer).
+   A read that started when c writes had completed may return, of some version j >= c that exists when
+   it returns, the content, or "not found" once that version has expired. *)
+Definition fresh_enough (hist : list version) (now c : N) (r : option N) : bool :=
+  existsb (fun j => (c <=? N.of_nat j)%N &&
+                    match nth_error (rev hist) j with
+                    | Some e => on_eqb (fst e) r || (match r with None => s_expired now (snd e) | Some _ => false end)
+                    | None => false
+                    end)
           (seq 0 (length hist)).
 
-Fixpoint no_stale (hist : list (option N)) (prog : list wop) (wmid : bool) (starts : list (nat * N))
+Fixpoint no_stale (hist : list version) (now : N) (prog : list wop) (wmid : bool) (starts : list (nat * N))
          (ps : list pid) (obs : list sobs) : bool :=
   match ps, obs with
   | [], [] => true
   | p :: rp, o :: ro =>
       match p, o with
       | PW, SNone =>
-          (* the writer's storage step: the next content exists from now on *)
+          (* the writer's storage step: the next version exists from now on *)
           match prog with
-          | w :: rest => no_stale (wcontent w :: hist) rest true starts rp ro
+          | w :: rest => no_stale ((wcontent w, wexp now w) :: hist) now rest true starts rp ro
           | [] => false
           end
-      | PW, SWDone => no_stale hist prog false starts rp ro
-      | PR i, SGetStart c => no_stale hist prog wmid ((i, c) :: starts) rp ro
-      | PR i, SGetHit c r => fresh_enough hist c r && no_stale hist prog wmid starts rp ro
+      | PW, SWDone => no_stale hist now prog false starts rp ro
+      | PC, SClock => no_stale hist (now + 1)%N prog wmid starts rp ro
+      | PR i, SGetStart c => no_stale hist now prog wmid ((i, c) :: starts) rp ro
+      | PR i, SGetHit c r => fresh_enough hist now c r && no_stale hist now prog wmid starts rp ro
       | PR i, SGetDone r =>
           match find (fun e => Nat.eqb (fst e) i) starts with
-          | Some (_, c) => fresh_enough hist c r
-                           && no_stale hist prog wmid (filter (fun e => negb (Nat.eqb (fst e) i)) starts) rp ro
+          | Some (_, c) => fresh_enough hist now c r
+                           && no_stale hist now prog wmid (filter (fun e => negb (Nat.eqb (fst e) i)) starts) rp ro
           | None => false
           end
-      | PR i, SNone => no_stale hist prog wmid starts rp ro
+      | PR i, SNone => no_stale hist now prog wmid starts rp ro
       | _, _ => false
       end
   | _, _ => false
   end.
 
 Definition satisfies_sched (t : ctrace) : bool :=
-  no_stale [ct_init t] (ct_prog t) false [] (ct_sched t) (ct_obs t).
+  no_stale [(ct_init t, 0%N)] 0 (ct_prog t) false [] (ct_sched t) (ct_obs t).
 
 (* ================= one trace type for the driver ================= *)
 Inductive trace := TSeq (t : strace) | TSched (t : ctrace) | TSeqX (t : xtrace).
